@@ -4,7 +4,7 @@ CONSTANTS
   NDown = 3
   Retries = 4
   NegAttempts = 10
-  MaxLoss = 7
+  MaxLoss = 5
   MaxNegLoss = 3
   PeerModes <- ModesSL
   DenyReplies <- DenyMany
